@@ -7,7 +7,8 @@
  *   Acquire/Release    written by the wrapped pthread_mutex_lock/unlock for libcoap's global lock, WHILE the mutex is held
  * A watchdog turns "no progress for a while" into a Stall event listing the threads stuck inside a call.
  *
- * usage: drv_lock <out.ndjson> <nthreads 2..8> <ms to run> <seed> [with_resources 0|1]
+ * usage: drv_lock <out.ndjson> <nthreads 2..8> <ms to run> <seed> [with_resources 0|1] [keepalive seconds, 0 = off]
+ *   keepalive: an extra, otherwise idle client session is pinged by the I/O loop; the server's RST reaches the pong handler
  */
 #include <coap3/coap_libcoap_build.h>
 #include <pthread.h>
@@ -17,6 +18,9 @@
 #include <stdlib.h>
 #include <unistd.h>
 #include <time.h>
+
+/* callbacks that libcoap invokes with its lock kept stay inside for a moment, so that other threads do arrive meanwhile */
+static void linger(void) { struct timespec t = {0, 200000}; nanosleep(&t, NULL); }
 
 #define MAXEV (1 << 21)
 typedef struct { uint8_t kind; uint8_t thr; uint16_t what; } evt_t;
@@ -66,7 +70,7 @@ int __wrap_pthread_mutex_unlock(pthread_mutex_t *m) {
 
 /* ---- the application -------------------------------------------------------------------------------------------- */
 static coap_context_t *ctx;
-static coap_session_t *csess[8];
+static coap_session_t *csess[8], *ksess;
 static coap_resource_t *res_a, *res_obs;
 static coap_address_t srv;
 
@@ -102,6 +106,7 @@ static void h_nack(coap_session_t *s, const coap_pdu_t *sent, const coap_nack_re
   logev(E_CBENTER, 2);
   API(8, p = coap_session_max_pdu_size(s));
   (void)p;
+  linger();
   logev(E_CBEXIT, 2);
 }
 static int h_event(coap_session_t *s, const coap_event_t ev) {
@@ -110,6 +115,7 @@ static int h_event(coap_session_t *s, const coap_event_t ev) {
   logev(E_CBENTER, 3);
   API(8, n = coap_session_max_pdu_size(s));
   (void)n;
+  linger();
   logev(E_CBEXIT, 3);
   return 0;
 }
@@ -119,6 +125,7 @@ static void h_pong(coap_session_t *s, const coap_pdu_t *rcv, const coap_mid_t mi
   logev(E_CBENTER, 5);
   API(8, p = coap_session_max_pdu_size(s));
   (void)p;
+  linger();
   logev(E_CBEXIT, 5);
 }
 
@@ -233,11 +240,22 @@ int main(int argc, char **argv) {
   coap_register_nack_handler(ctx, h_nack);
   coap_register_event_handler(ctx, h_event);
   coap_register_pong_handler(ctx, h_pong);
-  coap_context_set_keepalive(ctx, 0);
+  coap_context_set_keepalive(ctx, argc > 6 ? (unsigned)atoi(argv[6]) : 0);
   for (i = 0; i < 4; i++) {
     csess[i] = coap_new_client_session(ctx, NULL, &srv, COAP_PROTO_UDP);
     if (!csess[i]) return 3;
     coap_session_set_max_retransmit(csess[i], 1);
+  }
+  if (argc > 6 && atoi(argv[6]) > 0) {
+    /* an idle session for the keepalive logic: one exchange, then silence */
+    ksess = coap_new_client_session(ctx, NULL, &srv, COAP_PROTO_UDP);
+    if (ksess) {
+      coap_pdu_t *pdu = coap_new_pdu(COAP_MESSAGE_NON, COAP_REQUEST_CODE_GET, ksess);
+      uint8_t t[2] = {0xdd, 1};
+      coap_add_token(pdu, 2, t);
+      coap_add_option(pdu, COAP_OPTION_URI_PATH, 1, (const uint8_t *)"a");
+      coap_send(ksess, pdu);
+    }
   }
   /* one observer so that notifications flow */
   {
@@ -305,6 +323,7 @@ int main(int argc, char **argv) {
   coap_register_event_handler(ctx, NULL);
   coap_register_pong_handler(ctx, NULL);
   for (i = 0; i < 4; i++) coap_session_release(csess[i]);
+  if (ksess) coap_session_release(ksess);
   coap_free_context(ctx);
   coap_cleanup();
   return 0;
